@@ -84,6 +84,14 @@ def run(m: Model, r: Report, tier: str) -> None:
         close = conn.methods.get("close")
         if close is not None and fin_calls_close and any("_read_queue.put" in ast.unparse(n) or "shutdown" in ast.unparse(n) for n in ast.walk(close.node)):
             wakes = True
+            # close() runs inside the reader task it cancels (called from the task's finally): the first await in close() raises CancelledError there, so
+            # only what happens before the first await is certain to happen - the wake-up markers must be put before it
+            gcl = CFG(close.node)
+            mark_n = {n.id for n in gcl.nodes.values() if n.kind == "stmt" and n.ast is not None and "_read_queue.put" in ast.unparse(n.ast)}
+            await_n = {n.id for n in gcl.nodes.values() if n.ast is not None and n.kind in ("stmt", "cond", "return") and any(isinstance(x, ast.Await) for x in ast.walk(n.ast))}
+            early, _pe = gcl.must_pass(gcl.entry, mark_n, await_n) if mark_n and await_n else (bool(mark_n), [])
+            r.check(early, "R1", f"{close.qualname}#markers-before-first-await", "the wake-up markers are put after an await of close(): when close() is called from the reader task's "
+                    "finally it cancels that very task, the await raises CancelledError and the markers are never put - a read pending at EOF waits forever", loc=close.loc)
         for f in conn.methods.values():
             for k, n in lm.queue_ops(f, "get"):
                 if k != q:
